@@ -94,8 +94,42 @@ Proof. unfold adg_app. cbn [ad_t_fg ad_t_bg ad_t_ul ad_t_attrs]. rewrite app_ass
 Lemma adg_app_nil t : adg_app t [] = t.
 Proof. unfold adg_app. rewrite app_nil_r. destruct t; reflexivity. Qed.
 
+(* ---- the effects applied from a private TABLE of (effect, method pointer) entries ------------- *)
+(* `TABLE.iter().filter(|(e, _)| effects.contains( *e)).fold(style, |style, (_, set)| set(&style))`: whatever way the two
+   closures take an entry apart, the fold appends the hand model's list when the table's entries are, one by one, the
+   hand table's: the same bit, and the method that switches on the attribute of that name *)
+Definition adg_setter_rel (p : N * (ad_tstyle -> ad_tstyle)) (kn : N * list N) : Prop :=
+  fst p = bit (fst kn) /\ forall t, snd p t = ad_t_attr t (snd kn).
+
+Lemma adg_fold_setters (F : ad_tstyle -> N * (ad_tstyle -> ad_tstyle) -> ad_tstyle) (G : N * (ad_tstyle -> ad_tstyle) -> bool)
+      (L : list (N * (ad_tstyle -> ad_tstyle))) (tbl : list (N * list N)) (e : N) (t : ad_tstyle) :
+  (forall st p, F st p = snd p st) -> (forall p, G p = ad_bits_contains e (fst p)) ->
+  Forall2 adg_setter_rel L tbl ->
+  fold_left F (filter G L) t = adg_app t (ad_conv_effects tbl e).
+Proof.
+  intros HF HG H. revert t. induction H as [|p kn L' tbl' [Hk Hs] _ IH]; intros t.
+  - cbn [filter fold_left ad_conv_effects]. rewrite adg_app_nil. reflexivity.
+  - destruct kn as [k name]. cbn [filter ad_conv_effects fst snd] in *. rewrite HG, Hk, adg_contains_bit.
+    destruct (N.testbit e k); cbn [fold_left].
+    + rewrite HF, Hs, IH. unfold adg_app, ad_t_attr. cbn [ad_t_fg ad_t_bg ad_t_ul ad_t_attrs].
+      rewrite <- app_assoc. reflexivity.
+    + apply IH.
+Qed.
+
+Ltac adg_setter_table tbl :=
+  try match goal with
+  | |- context [fold_left ?F (filter ?G ?L) ?t] =>
+      match goal with
+      | |- context [ad_conv_effects tbl ?e] =>
+          rewrite (adg_fold_setters F G L tbl e t
+                     ltac:(intros ? [? ?]; reflexivity) ltac:(intros [? ?]; reflexivity)
+                     ltac:(unfold tbl; repeat (first [apply Forall2_nil | apply Forall2_cons; [split; [reflexivity|intros ?; reflexivity]|]])))
+      end
+  end.
+
 (* walk a chain of effect statements (translated side), then the effect table (hand side) *)
 Ltac adg_effects tbl :=
+  adg_setter_table tbl;
   rewrite ?adg_contains_bit;
   repeat rewrite adg_style_step;
   repeat rewrite adg_attrs_step;
